@@ -694,6 +694,9 @@ class GAM(Core, MetaTermMixin):
         y = deepcopy(y).astype('float64')
         y[y == 0] += 0.01  # edge case for log link, inverse link, and logit link
         y[y == 1] -= 0.01  # edge case for logit link
+        levels = getattr(self.distribution, 'levels', 1)
+        if levels != 1:
+            y[y == levels] -= 0.01  # edge case for logit link with several levels
 
         y_ = self.link.link(y, self.distribution)
         y_ = make_2d(y_, verbose=False)
